@@ -53,6 +53,7 @@ func gen(a Args, out *Out) {
 		{6, connsim.GatedSendVsTeardown},
 		{6, connsim.GatedDoubleClose},
 		{10, connsim.GatedOversizeBacklog},
+		{8, connsim.GatedRefusedThenClose},
 		{6, connsim.GatedReaderFirst},
 		{10, connsim.GatedPartialFrameClose},
 		{30, func(r *Rng) (string, connsim.Cfg) { return connsim.FreeStream(r, false) }},
